@@ -217,7 +217,7 @@ def first_effect(ctx, eff, p, var, upto=None):
     return None
 
 
-def check_stateless(ctx, modname, qual, fn, loop, allpaths):
+def check_stateless(ctx, modname, qual, fn, loop, allpaths, rule="C10-d"):
     # writes to self in the loop body (directly or through same-class helpers / closures one level)
     bad = []
     for n in A.walk_body(loop.body):
@@ -249,16 +249,16 @@ def check_stateless(ctx, modname, qual, fn, loop, allpaths):
     reported = set()
     for n, field in bad:
         if (modname, qual, field) in SELF_STATE_EXCEPTIONS:
-            ctx.ok("C10-d", n, "%s: self.%s is written per value -- named exception: %s" % (
+            ctx.ok(rule, n, "%s: self.%s is written per value -- named exception: %s" % (
                 qual, field, SELF_STATE_EXCEPTIONS[(modname, qual, field)]), nontrivial=False)
             continue
         if field in reported:
             continue
         reported.add(field)
-        ctx.violation("C10-d", n, "%s writes self.%s inside the per-value loop: what is produced for a selected value can depend on "
+        ctx.violation(rule, n, "%s writes self.%s inside the per-value loop: what is produced for a selected value can depend on "
                       "the (unselected) values that came before it" % (qual, field), construct="self-write:%s" % field)
     if not reported:
-        ctx.ok("C10-d", loop, "%s: no write to self in the per-value loop" % qual)
+        ctx.ok(rule, loop, "%s: no write to self in the per-value loop" % qual)
     # loop-carried local definitions
     assigned = set()
     comp_locals = set()
@@ -310,12 +310,12 @@ def check_stateless(ctx, modname, qual, fn, loop, allpaths):
             if k != "partial":
                 done.update(writes)
     for name, (node, p) in sorted(carried.items()):
-        ctx.violation("C10-d", node, "%s: local `%s` is read in an iteration before that iteration assigns it (path [%s]) and is "
+        ctx.violation(rule, node, "%s: local `%s` is read in an iteration before that iteration assigns it (path [%s]) and is "
                       "assigned in the loop: its value is carried over from the previous value of the flow, so the result for "
                       "one value depends on the values interleaved before it" % (qual, name, p.describe(4)),
                       construct="loop-carried:%s" % name, path=p)
     if not carried:
-        ctx.ok("C10-d", loop, "%s: no loop-carried local definition (%d locals assigned in the loop)" % (qual, len(assigned)))
+        ctx.ok(rule, loop, "%s: no loop-carried local definition (%d locals assigned in the loop)" % (qual, len(assigned)))
 
 
 def self_write(n):
